@@ -9,6 +9,8 @@ package exec
 import (
 	"fmt"
 	"sync"
+
+	"gosym/smt"
 )
 
 type goroutine struct {
@@ -18,6 +20,7 @@ type goroutine struct {
 	done  bool
 	what  string
 	fresh bool // runnable without having blocked on a condition (new or yielded)
+	vc    vclock
 }
 
 type scheduler struct {
@@ -31,7 +34,7 @@ type scheduler struct {
 
 func newScheduler(p *pathRun) *scheduler {
 	s := &scheduler{p: p}
-	g := &goroutine{id: 0, wake: make(chan struct{}, 1)}
+	g := &goroutine{id: 0, wake: make(chan struct{}, 1), vc: vclock{1}}
 	s.gs = []*goroutine{g}
 	s.cur = g
 	s.main = g
@@ -43,6 +46,9 @@ func always() bool { return true }
 // spawn registers a new goroutine running fn; the caller keeps running.
 func (s *scheduler) spawn(fn func()) {
 	g := &goroutine{id: len(s.gs), wake: make(chan struct{}, 1), ready: always, fresh: true}
+	// the go statement happens before the new goroutine's execution begins
+	g.vc = s.cur.vc.copy().tick(g.id)
+	s.cur.vc = s.cur.vc.tick(s.cur.id)
 	s.gs = append(s.gs, g)
 	s.wg.Add(1)
 	go func() {
@@ -62,7 +68,10 @@ func (s *scheduler) spawn(fn func()) {
 				// hand control back to main so it can unwind
 				s.aborted = true
 				if g != s.main {
-					s.main.wake <- struct{}{}
+					select {
+					case s.main.wake <- struct{}{}:
+					default: // main is already unwinding (shutdown)
+					}
 				}
 				return
 			}
@@ -194,6 +203,7 @@ func (s *scheduler) shutdown() {
 type pending struct {
 	v     value
 	taken bool
+	vc    vclock
 }
 
 type channel struct {
@@ -202,6 +212,9 @@ type channel struct {
 	sendq   []*pending // unbuffered / overflow handoff
 	closed  bool
 	recvW   int
+	bufvc   []vclock // clocks of the buffered messages (hb-race mode)
+	closevc vclock
+	lastvc  vclock // clock of the message taken by the last doRecv
 }
 
 func (p *pathRun) chanSend(fr *frame, ch *channel, v value) {
@@ -213,6 +226,7 @@ func (p *pathRun) chanSend(fr *frame, ch *channel, v value) {
 	}
 	if len(ch.buf) < ch.cap {
 		ch.buf = append(ch.buf, v)
+		ch.bufvc = append(ch.bufvc, p.sendClock())
 		return
 	}
 	if ch.cap > 0 {
@@ -221,9 +235,10 @@ func (p *pathRun) chanSend(fr *frame, ch *channel, v value) {
 			p.targetPanic(fr, "send on closed channel")
 		}
 		ch.buf = append(ch.buf, v)
+		ch.bufvc = append(ch.bufvc, p.sendClock())
 		return
 	}
-	pd := &pending{v: v}
+	pd := &pending{v: v, vc: p.sendClock()}
 	ch.sendq = append(ch.sendq, pd)
 	p.sched.block(func() bool { return pd.taken || ch.closed }, "chan send (unbuffered)")
 	if !pd.taken && ch.closed {
@@ -239,14 +254,21 @@ func (ch *channel) doRecv() (value, bool) {
 	if len(ch.buf) > 0 {
 		v := ch.buf[0]
 		ch.buf = ch.buf[1:]
+		ch.lastvc = nil
+		if len(ch.bufvc) > 0 {
+			ch.lastvc = ch.bufvc[0]
+			ch.bufvc = ch.bufvc[1:]
+		}
 		return v, true
 	}
 	if len(ch.sendq) > 0 {
 		pd := ch.sendq[0]
 		ch.sendq = ch.sendq[1:]
 		pd.taken = true
+		ch.lastvc = pd.vc
 		return pd.v, true
 	}
+	ch.lastvc = ch.closevc
 	return nil, false // closed
 }
 
@@ -259,7 +281,20 @@ func (p *pathRun) chanRecv(ch *channel) (value, bool) {
 		p.sched.block(ch.canRecv, "chan receive")
 		ch.recvW--
 	}
-	return ch.doRecv()
+	v, ok := ch.doRecv()
+	p.hbAcquire(ch.lastvc)
+	return v, ok
+}
+
+// sendClock: a send happens before the completion of the corresponding receive
+func (p *pathRun) sendClock() vclock {
+	if p.race == nil {
+		return nil
+	}
+	g := p.sched.cur
+	c := g.vc.copy()
+	g.vc = g.vc.tick(g.id)
+	return c
 }
 
 func (ch *channel) canSend() bool {
@@ -275,6 +310,8 @@ func (ch *channel) canSend() bool {
 // ---- sync ----
 
 type syncState struct {
+	vc      vclock // release clock (hb-race mode)
+	vcR     vclock // release clock of readers (RWMutex)
 	locked  bool
 	owner   int
 	readers int
@@ -289,4 +326,34 @@ func (p *pathRun) syncOf(addr *value) *syncState {
 		p.syncTab[addr] = st
 	}
 	return st
+}
+
+// preempt is a voluntary scheduling point (hb-race mode with a preemption budget):
+// the running goroutine may be suspended here in favour of another runnable one.
+// Both continuations are explored (a free fork); the budget bounds the number of
+// preemptions per path.
+func (s *scheduler) preempt(where string) {
+	p := s.p
+	if p.preemptBudget <= 0 || p.draining {
+		return
+	}
+	cur := s.cur
+	// is anybody else runnable?
+	other := false
+	for _, g := range s.gs {
+		if g != cur && !g.done && g.ready != nil && g.ready() {
+			other = true
+		}
+	}
+	if !other {
+		return
+	}
+	v := p.ctx.Var(fmt.Sprintf("preempt!%d", p.counters["preempt"]), smt.Bool)
+	p.counters["preempt"]++
+	if p.freeFork(v) {
+		return // keep running
+	}
+	p.preemptBudget--
+	p.res.Assumes["schedule: preemption "+where]++
+	s.yield()
 }
